@@ -93,7 +93,8 @@ class C14(object):
         sig = repr(sorted(case.items()))
         return {"violations": out[:3], "stats": {"events": len(B.trace), "flushes": nfl, "probes": probes,
                                                  "faults": {"aretry_injected_failures": probes.get("retry_failures", 0), "key_function_raises": probes.get("key_raised", 0)}},
-                "sig": sig, "nontrivial": len(case.get("elements", [])) >= 2 or h == "aretry", "digest": sig}
+                "sig": sig, "nontrivial": len(case.get("elements", [])) >= 2 or h == "aretry",
+                "digest": sig + "|" + repr([(f["kind"], f["tokens"]) for f in B.flushes])}
 
     def _run_helper(self, B, case, h, out, probes):
         vals = _mk(case.get("elements", []))
